@@ -106,10 +106,11 @@ def err_else_8(stdout: str, returncode: int) -> bool:
     post: __return__
     """
     # totality: whatever is not recognised is "err" (never a CheckSatResult), whatever the return code
+    # (which first lines may yield sat / unsat / unknown is pinned down by the three *_only_* conditions)
     out = _run(stdout, "E", returncode, False)
     if isinstance(out.result, str):
-        return out.result == "err" and out.error == "E"
-    return stdout.split("\n")[0] in ("sat", "unsat", "unknown")
+        return out.result == "err" and out.error == "E" and out.model is None
+    return out.result == sat or out.result == unsat or out.result == unknown
 
 
 # ---- unsat with a tail: the text after the first line never changes the class ---------------------------------
